@@ -18,6 +18,7 @@
 import Cog.Closed.PrefixReplace
 import Cog.Closed.UnspecDup
 import Cog.Closed.Seq
+import Cog.Closed.FilterProofs
 namespace Cog.Closed
 open Cog.IR Cog.Xform
 
@@ -190,5 +191,100 @@ def nvOps : List NameOp :=
 example : closed nvS = true ∧ seqOK side nvOps nvS = true ∧ seqOK opOK nvOps nvS = true ∧
     (match applyAll nvOps nvS with | .ok S' => closed S' && S'.all (fun s => s.objects.length == 3) | _ => false) = true := by
   decide
+
+/-! ## `allowed_objects` (FilterSchemas) -/
+
+open FilterSchemas in
+/-- FULL statement: the objects kept by FilterSchemas are exactly the listed objects plus everything
+    they reference, directly or indirectly (`Reach`: least set closed under the edges of EVERY use).
+    False: see the counterexamples. -/
+def C05_filter_exact_full : Prop :=
+  ∀ (A : List Addr) (S S' : Schemas), Closed S → dotFree S = true → FilterSchemas.run A S = .ok S' →
+    ∀ a, existsObj S a = true → (keptIn S' a = true ↔ Reach S A a)
+
+open FilterSchemas in
+/-- half of it holds without further hypothesis: whatever is kept is reachable -/
+theorem C05_filter_kept_subset_reach (A : List Addr) (S S' : Schemas) (hc : Closed S)
+    (hdot : dotFree S = true) (h : FilterSchemas.run A S = .ok S') (a : Addr) (ha : existsObj S a = true)
+    (hk : keptIn S' a = true) : Reach S A a :=
+  kept_sound hc hdot h a ha hk
+
+open FilterSchemas in
+/-- kept = reach — when every use is a reference at a position the Visitor walks (`visOK`,
+    decidable).  Invariant of the unbounded loop of `buildAllowList`. -/
+theorem C05_filter_exact (A : List Addr) (S S' : Schemas) (hc : Closed S) (hdot : dotFree S = true)
+    (hvis : visOK S = true) (h : FilterSchemas.run A S = .ok S') (a : Addr) (ha : existsObj S a = true) :
+    keptIn S' a = true ↔ Reach S A a :=
+  kept_exact hc hdot hvis h a ha
+
+/-- FULL statement: filtering keeps every reference resolving.  False (entry point, blind spots). -/
+def C05_filter_closed_full : Prop :=
+  ∀ (A : List Addr) (S S' : Schemas), Closed S → FilterSchemas.run A S = .ok S' → Closed S'
+
+open FilterSchemas in
+/-- filtering keeps every reference resolving — under `visOK`, unique package names and object
+    keys, and no entry point -/
+theorem C05_filter_preserves_closed (A : List Addr) (S S' : Schemas) (hc : Closed S)
+    (hdot : dotFree S = true) (hvis : visOK S = true) (hup : uniquePkgs S = true) (huk : uniqueKeys S = true)
+    (hne : noEntry S = true) (h : FilterSchemas.run A S = .ok S') : Closed S' :=
+  filter_closed hc hdot hvis hup huk hne h
+
+open FilterSchemas in
+/-- a witness: a reachable object that is not kept -/
+def filterRefutes (w : W.FilterCase) (a : Addr) : Bool :=
+  closed w.2 && dotFree w.2 && existsObj w.2 a && (reachList w.2 w.1).contains a &&
+  match FilterSchemas.run w.1 w.2 with
+  | .ok S' => !keptIn S' a
+  | _ => false
+
+open FilterSchemas in
+theorem not_filter_full (w : W.FilterCase) (a : Addr) (h : filterRefutes w a = true) : ¬ C05_filter_exact_full := by
+  intro hfull
+  simp only [filterRefutes, Bool.and_eq_true] at h
+  obtain ⟨⟨⟨⟨h1, h2⟩, h3⟩, h4⟩, h5⟩ := h
+  have hr : Reach w.2 w.1 a := reachList_sound w.2 w.1 a (by simpa using h4)
+  cases hrun : FilterSchemas.run w.1 w.2 with
+  | ok S' =>
+    have := (hfull w.1 w.2 S' h1 h2 hrun a h3).mpr hr
+    simp [hrun, this] at h5
+  | err e => simp [hrun] at h5
+  | panic e => simp [hrun] at h5
+
+/-- an object referenced only from a map index type is dropped -/
+theorem C05_filter_counterexample_mapindex : ¬ C05_filter_exact_full :=
+  not_filter_full W.filterMapIndex ("p", "Foo") (by decide)
+
+/-- an object referenced only by a constant reference is dropped -/
+theorem C05_filter_counterexample_cref : ¬ C05_filter_exact_full :=
+  not_filter_full W.filterCref ("p", "Foo") (by decide)
+
+/-- an object named only by a discriminator mapping is dropped -/
+theorem C05_filter_counterexample_mapping : ¬ C05_filter_exact_full :=
+  not_filter_full W.filterMapping ("p", "Foo") (by decide)
+
+/-- an object referenced only from the union kept in a generated struct's hints is dropped -/
+theorem C05_filter_counterexample_gen : ¬ C05_filter_exact_full :=
+  not_filter_full W.filterGen ("p", "Foo") (by decide)
+
+/-- the entry point is never looked at: it is dropped and keeps being named -/
+theorem C05_filter_closed_counterexample_entrypoint : ¬ C05_filter_closed_full := by
+  intro hfull
+  have := hfull W.filterEntry.1 W.filterEntry.2 _ (by decide) rfl
+  revert this; decide
+
+/-- a constant reference to a dropped object dangles afterwards -/
+theorem C05_filter_closed_counterexample_cref : ¬ C05_filter_closed_full := by
+  intro hfull
+  have := hfull W.filterCref.1 W.filterCref.2 _ (by decide) rfl
+  revert this; decide
+
+open FilterSchemas in
+/-- non-vacuity: a schema set on which all hypotheses of the filter theorems hold and the filter drops something -/
+example : closed (W.two (W.ref "Foo")) = true ∧ dotFree (W.two (W.ref "Foo")) = true ∧
+    visOK (W.two (W.ref "Foo")) = true ∧ uniquePkgs (W.two (W.ref "Foo")) = true ∧
+    uniqueKeys (W.two (W.ref "Foo")) = true ∧ noEntry (W.two (W.ref "Foo")) = true ∧
+    (match FilterSchemas.run [("p", "Foo")] (W.two (W.ref "Foo")) with
+      | .ok S' => keptIn S' ("p", "Foo") && !keptIn S' ("p", "Bar")
+      | _ => false) = true := by decide
 
 end Cog.Closed
